@@ -114,6 +114,10 @@ def generate(seed, tier, idx=0):
          "peek": 1, "contains": 1, "size": 0.5, "is_empty": 0.5, "clear": 0.15,
          # looking at the list (printing, logging, a debugger) must not change it
          "show": 0.5 if n <= 100 else 0.03}      # (printing a long list is slow)
+    if rng.random() < 0.05:
+        # millions of other events are created elsewhere in the process between two
+        # adds of this list (ids far apart)
+        w["idgap"] = 0.6
     if rng.random() < 0.03:
         # elsewhere in the process a simulator is initialised (and cleaned up) while
         # events of this list are alive: ids must keep following creation order
@@ -318,6 +322,8 @@ def run_history(case):
             pass
         elif name == "is_empty":
             pass
+        elif name == "idgap":
+            SimEvent._SimEvent__event_counter += (3 << 20) + 12345
         elif name == "show":
             str(el)
             repr(el)
